@@ -27,6 +27,9 @@ ASSUMPTIONS = ['frames parsed independently from the raw byte log (<q I payload>
                'the harness computes by its own subset enumeration)']
 
 
+TIMEOUT_INCONCLUSIVE = True  # hangs are decided by quiescence in the simulator, not by the wall clock
+
+
 def budget(tier):
     return dict(shards=16, examples=60 if tier == 'quick' else 500)
 
